@@ -85,7 +85,8 @@ def drive(rec):
                 origin = cr.to_cartesian(np.array(q["c"], dtype=float) / n)
                 res = cr.atoms_in_radius(radius, origin=origin)
                 rows, _, off = xtal.project_rows(res, n, None, u, with_cell=True)
-                out["rows"] = [{"p": r["p"], "z": r["z"], "asym": r["asym"], "d2": -1, "hascell": True, "cell": r["cell"]}
+                # "pr": the grid point the reported float is (0.9999999999999991 - 1 is the point 0, whatever cell it is listed under)
+                out["rows"] = [{"p": r["pr"], "z": r["z"], "asym": r["asym"], "d2": -1, "hascell": True, "cell": r["cell"]}
                                for r in rows]
                 out["off"] = bool(off)
             except Exception as e:
